@@ -7,7 +7,9 @@ bool ops_archive(Ctx& c, const json& s, int idx, bool& handled) {
 	if (op == "put") { Scen::spit(P(s["path"]), Scen::expand(s["segs"])); return true; }
 	if (op == "file_eq") { auto got = Scen::slurp(P(s["path"])), want = Scen::expand(s["segs"]); if (!fs::is_regular_file(P(s["path"]))) { Proto::mismatch(site, "missing", where(Scen::str(s["path"]))); return false; } if (got != want) { Proto::mismatch(site, "bytes", where(Scen::str(s["path"]) + " " + Scen::hexdiff(got, want))); return false; } return true; }
 	if (op == "file_absent") { if (fs::exists(P(s["path"]))) { Proto::mismatch(site, "present", where(Scen::str(s["path"]))); return false; } return true; }
-	if (op == "vol_create") { std::vector<std::string> in; for (auto& p : s["inputs"]) in.push_back(P(p)); bool refused = throws([&] { Archive::VolFile::CreateArchive(P(s["out"]), in); }); bool want = s["expect"] == "refuse";
+	if (op == "vol_create") { const bool rel = s.value("rel", false); if (rel) fs::current_path(ROOT);      // paths exactly as spelled, relative to the sandbox
+		std::vector<std::string> in; for (auto& p : s["inputs"]) in.push_back(rel ? Scen::str(p) : P(p)); const std::string outPath = rel ? Scen::str(s["out"]) : P(s["out"]);
+		bool refused = throws([&] { Archive::VolFile::CreateArchive(outPath, in); }); if (rel) fs::current_path("/"); bool want = s["expect"] == "refuse";
 		if (refused != want) { Proto::mismatch(site, refused ? "refused-should-accept" : "accepted-should-refuse", where("")); return false; } return true; }
 	if (op == "vol_open") { c.vol.reset(); bool err = throws([&] { c.vol = std::make_unique<Archive::VolFile>(P(s["path"])); }); if (err) { Proto::mismatch(site, "refused-should-accept", where("")); return false; }
 		const json& L = s["listing"]; if (c.vol->GetCount() != L.size()) { Proto::mismatch(site, "count", where("count " + std::to_string(c.vol->GetCount()))); return false; }
